@@ -21,9 +21,10 @@ RULE = ("one execution = one point of the behaviour product (map|flat_map) x (ex
         "(or chain, or placement site) whose output reached a terminal state")
 REQUIRED = ["line_events", "lock_acquisitions"]
 
-MAP_FN = ["omit", "ret", "raise"]
+MAP_FN = ["omit", "ret", "raise", "ret_future"]
 MAP_EFN = ["omit", "ret", "ret_none", "raise_new", "reraise"]
-FLAT_FN = ["omit", "ret_done", "ret_pending_value", "ret_pending_exc", "ret_failed", "ret_cancelled", "ret_nonfuture", "raise"]
+FLAT_FN = ["omit", "ret_done", "ret_pending_value", "ret_pending_exc", "ret_failed", "ret_cancelled", "ret_nonfuture", "raise",
+           "ret_nested_pending", "ret_nested_done"]
 FLAT_EFN = ["omit", "ret_done", "ret_failed", "ret_pending_value", "ret_pending_exc", "ret_nonfuture", "raise_new", "reraise"]
 
 
@@ -31,7 +32,7 @@ def cases(tier, seed):
     out = []
     for kind in ("map", "flat_map"):
         for form in ("executor", "f"):
-            for inp in ("value", "exc"):
+            for inp in ("value", "exc", "future_value"):
                 for when in ("done", "later"):
                     out.append({"name": "map.laws/%s/%s/%s/%s" % (kind, form, inp, when), "kind": "laws", "op": kind, "form": form,
                                 "inp": inp, "when": when})
@@ -76,6 +77,10 @@ class World(object):
         self.e_fn = UserErrorB("fn")
         self.e_efn = OtherError("error_fn")
         self.e_inner = UserErrorB("inner")
+        # futures that are *values* (of the input / of the future a flat-map function hands back): exactly one
+        # level is flattened, these stay what they are
+        self.vfut = SpyFuture("value-of-input")
+        self.nested = SpyFuture("value-of-inner")
         self.fn = Recorded("fn", self._fn) if fnk != "omit" else None
         self.efn = Recorded("efn", self._efn) if efnk != "omit" else None
         kw = {}
@@ -103,6 +108,8 @@ class World(object):
     def _end(self, fut):
         if self.inp == "value":
             fut.set_result(("v", 1))
+        elif self.inp == "future_value":
+            fut.set_result(self.vfut)
         else:
             try:
                 raise self.e_in
@@ -137,6 +144,11 @@ class World(object):
             return self.inner
         if k == "ret_nonfuture":
             return ("not a future", 3)
+        if k == "ret_nested_pending":
+            return F.f_return(self.nested)
+        if k == "ret_nested_done":
+            self.nested.set_result(("deep", 1))
+            return F.f_return(self.nested)
         raise AssertionError(k)
 
     def _fn(self, idx, x):
@@ -145,6 +157,8 @@ class World(object):
             return ("g", x)
         if k == "raise":
             raise self.e_fn
+        if k == "ret_future":
+            return self.nested
         return self._ret_future(k, x)
 
     def _efn(self, idx, ex):
@@ -176,8 +190,12 @@ class World(object):
                 return ("exc", self.e_inner)
             if k == "ret_nonfuture":
                 return ("exctype", TypeError)
-        if self.inp == "value":
-            v = ("v", 1)
+            if k in ("ret_nested_pending", "ret_nested_done"):
+                return ("value", self.nested)
+        if self.inp in ("value", "future_value"):
+            v = ("v", 1) if self.inp == "value" else self.vfut
+            if self.fnk == "ret_future":
+                return ("value", self.nested, 1, 0)
             if self.fnk == "omit":
                 return ("value", v, 0, 0)
             if self.fnk == "ret":
@@ -225,7 +243,7 @@ class World(object):
         elif exp[0] == "cancelled":
             ok = o[0] == "cancelled"
         if not ok:
-            if o[0] == "value" and hasattr(o[1], "add_done_callback"):
+            if o[0] == "value" and hasattr(o[1], "add_done_callback") and not hasattr(exp[1], "add_done_callback"):
                 res.violation("nested-future-result", "%s: output resolved with a Future object (%r), model says %s" % (label, o[1], exp[:2]))
             else:
                 res.violation("wrong-outcome/%s" % exp[0], "%s: output is %s, model says %s %r" % (label, outcome_repr(o), exp[0], exp[1]))
